@@ -59,7 +59,8 @@ func expectedCall(o world.Op) world.Op {
 type c10Result struct {
 	final    []byte
 	finalErr error
-	errAt    []bool // error status after each call
+	errAt    []bool      // error status after each call
+	obsAt    [][4]uint32 // CSel, NSel, LOD bits after each call
 }
 
 // driveEncoder runs hist on e (already prepared by the caller) and checks
@@ -94,6 +95,8 @@ func driveEncoder(ctx *Ctx, e *encode.Encoder, hist []world.Op, probe bool, deep
 		}
 		b, err := e.Bytes()
 		res.errAt = append(res.errAt, err != nil)
+		l0, l1 := e.LOD()
+		res.obsAt = append(res.obsAt, [4]uint32{uint32(e.CSel()), uint32(e.NSel()), float32bits(l0), float32bits(l1)})
 		if (err != nil) != (m.State == model.EncError) {
 			return res, viol("C10", "accept", "after call #%d %s the automaton is in %s but Bytes returned err=%v", i, o.String(), m.State, err)
 		}
@@ -198,6 +201,9 @@ func checkHistory(ctx *Ctx, hist []world.Op, deep bool) *report.Violation {
 		for i := range r1.errAt {
 			if r1.errAt[i] != r3.errAt[i] {
 				return viol("C10", "zero-value", "after call #%d %s the zero-value Encoder reports error=%t, one reset with the default metadata reports error=%t", i, hist[i].String(), r1.errAt[i], r3.errAt[i])
+			}
+			if !r1.errAt[i] && r1.obsAt[i] != r3.obsAt[i] {
+				return viol("C10", "zero-value", "after call #%d %s the zero-value Encoder reports (CSel,NSel,LOD bits)=%v, one reset with the default metadata reports %v", i, hist[i].String(), r1.obsAt[i], r3.obsAt[i])
 			}
 		}
 		if !bytes.Equal(r1.final, r3.final) || (r1.finalErr != nil) != (r3.finalErr != nil) || (r1.finalErr != nil && r1.finalErr != r3.finalErr) {
